@@ -65,3 +65,10 @@ Theorem C07_locals_alias_refuted :
   exists r, In r (concat (so_frames o)) /\ tlookup (r_vid r) (so_table o) = None.
 Proof. vm_compute. eexists. split; [left; reflexivity | reflexivity]. Qed.
 Print Assumptions C07_locals_alias_refuted.
+
+(* self-referential and mutually referential data terminates: for ANY heap (cycles, sharing, any width) and any
+   limits the traversal is finished after mu steps, mu = (budget + 2 - recorded) * (widest object + 1) + queued *)
+Theorem C07_terminates :
+  forall c h fifo fuel s, (mu c h s <= fuel)%nat -> finished (run fuel fifo c h s) = true.
+Proof. intros c h fifo fuel s. apply run_terminates. Qed.
+Print Assumptions C07_terminates.
